@@ -2,11 +2,12 @@
 (* C13 on the model: over a small alphabet, two public inputs have equal seed terms iff they *)
 (* are equal (the flattening of variable-length parts is injective for a fixed layout).        *)
 EXTENDS PublicInput, TLC, Json
-CONSTANTS Stone6, Emit
+CONSTANTS Stone6, Emit, Small
 A == Atom("a")
 B == Atom("b")
 Vals == {A, B}
-Pages == {<<>>} \cup {<<<<x, y>>>> : x \in Vals, y \in Vals} \cup {<<<<x, y>>, <<u, v>>>> : x \in Vals, y \in Vals, u \in Vals, v \in {A}}
+Pages == {<<>>} \cup {<<<<x, y>>>> : x \in Vals, y \in Vals}
+         \cup (IF Small THEN {<<<<A, B>>, <<B, A>>>>, <<<<B, A>>, <<A, B>>>>} ELSE {<<<<x, y>>, <<u, v>>>> : x \in Vals, y \in Vals, u \in Vals, v \in {A}})
 Headers == {<<>>, <<<<A, A, A>>>>, <<<<B, A, A>>>>}
 PIs == [logSteps : {A}, rcMin : {A}, rcMax : Vals, layout : {A}, dyn : {<<>>, <<A>>}, segs : {<<<<A, A>>>>, <<<<A, B>>>>},
         padAddr : Vals, padVal : {A}, page : Pages, headers : Headers]
